@@ -669,11 +669,14 @@ class AIPDDLConverter:
 
         up_action = InstantaneousAction(action.name, **action_parameters)
 
-        up_action.add_precondition(
-            self._expression_converter.convert_expression(
-                action.precondition, action_parameters_expression, {}
+        # the parser represents the empty precondition ":precondition ()" with an empty disjunction
+        precondition = action.precondition
+        if not (isinstance(precondition, Or) and len(precondition.operands) == 0):
+            up_action.add_precondition(
+                self._expression_converter.convert_expression(
+                    precondition, action_parameters_expression, {}
+                )
             )
-        )
 
         for e in self._convert_effects(
             action_parameters_expression, action.effect, action.name
